@@ -6,6 +6,8 @@ Line-protocol driver for the C11 models.
   series <id> <k>:<v> ...                                declares a series and its tags (numeric ids)
   w <tick> <fam> <ser> <fld> <ftype> <slot> <value>      one field value of one row
   flush <fam>                                            dataFamily.Flush
+  flushbegin <fam> / flushend <fam>                      the two ends of a flush in progress (memory database
+                                                         switched to immutable ... file committed, immutable dropped)
   compact <fam>                                          kv compaction of the family's files (if > 1 level-0 file)
   reopen                                                 engine close + reopen
   q <qs> <qe> <ratio> | <cond> | <groupby keys> | <fld>:<func> ...
@@ -31,12 +33,13 @@ def cfgOfFacts : Cfg :=
    Generated.C11.fixMonthFamilyTime⟩
 
 structure St where
+  win : Option Window
   shard : Shard
   spf : Nat
   series : List (Nat × Tags)
   points : List Point
 
-def St.init : St := ⟨Shard.initV cfgOfFacts 15, 360, [], []⟩
+def St.init : St := ⟨none, Shard.initV cfgOfFacts 15, 360, [], []⟩
 
 def splitBar (ws : List String) : List (List String) :=
   ws.foldr (fun w acc => if w = "|" then [] :: acc else
@@ -145,7 +148,9 @@ def runQuery (st : St) (a : QArgs) : Option String := do
       let ft ← fieldTypeOf st fld
       let L := aggTypesOf ft ((a.items.filter (fun it => it.1 = fld)).map Prod.snd)
       let q : Query := ⟨fld, ft.aggType, .sum, st.spf, a.qs, a.qe, a.ratio⟩
-      let arr := leafGroup st.shard q scope L (queryFamilies st.shard q) g.2
+      let arr := match st.win with
+        | some W => leafGroupW st.shard q scope L W (queryFamilies st.shard q) g.2
+        | none => leafGroup st.shard q scope L (queryFamilies st.shard q) g.2
       some (L.filterMap (fun A =>
         let bs := bucketsOf q arr A
         if bs.isEmpty then none else some s!"f{fld}/a{A.code}={showBuckets bs}")))
@@ -185,7 +190,7 @@ def step (st : St) (ws : List String) : St × String :=
   match ws with
   | ["reset", w, spf] =>
     match w.toNat?, spf.toNat? with
-    | some w, some spf => if w = 0 ∨ spf = 0 then (st, "bad-op") else (⟨Shard.initV cfgOfFacts w, spf, [], []⟩, "ok")
+    | some w, some spf => if w = 0 ∨ spf = 0 then (st, "bad-op") else (⟨none, Shard.initV cfgOfFacts w, spf, [], []⟩, "ok")
     | _, _ => (st, "bad-op")
   | "schema" :: fields =>
     match fields.mapM parsePair with
@@ -216,6 +221,23 @@ def step (st : St) (ws : List String) : St × String :=
   | ["flush", fam] =>
     match fam.toNat? with
     | some fam => ({ st with shard := st.shard.flush fam }, "ok")
+    | none => (st, "bad-op")
+  | ["flushbegin", fam] =>
+    -- the memory database becomes immutable; the shard is advanced to the state after the commit
+    match fam.toNat?, st.win with
+    | some fam, none =>
+      match (st.shard.family fam).mutable_ with
+      | some md =>
+        let rng := Map.lookup st.shard.ranges md.created
+        ({ st with shard := st.shard.flush fam, win := if rng.isSome then some ⟨fam, md, rng⟩ else none }, "ok")
+      | none => (st, "ok")
+    | _, _ => (st, "bad-op")
+  | ["flushend", fam] =>
+    match fam.toNat? with
+    | some fam =>
+      match st.win with
+      | some W => if W.fam = fam then ({ st with win := none }, "ok") else (st, "bad-op")
+      | none => (st, "ok")
     | none => (st, "bad-op")
   | ["compact", fam] =>
     match fam.toNat? with
